@@ -35,6 +35,8 @@ class Crate:
             if "body" in b:
                 lower_while_next(b["body"])
                 merge_guarded_arms(b["body"])
+                if b.get("dk") in ("Fn", "AssocFn"):
+                    lower_cursor_loop(b)
 
     def _annotate(self):
         """resolve interned type indices to strings in place (ty, adj, owner, gen)"""
@@ -563,3 +565,113 @@ def merge_guarded_arms(root):
             merged["body"] = body
             arms[i:i + 2] = [merged]
             # stay at i: a further arm on the same variant may follow
+
+
+def _has_loop_control(n):
+    """a `break` / `continue` / nested loop below n (closures excluded)"""
+    return any(x.get("k") in ("Break", "Continue", "Loop") or (x.get("k") == "Match" and x.get("src") == "ForLoopDesugar") for x in walk(n, into_closures=False) if x is not n)
+
+
+def lower_cursor_loop(fnrec):
+    """A loop that walks a chain with one cursor that starts as a parameter is the same function written with a tail call:
+         let mut c = p;  loop { B; c = E; }                          ==   B[p];  return f(E[p], other params)
+         let mut c = Some(p);  while let Some(x) = c { B; c = E; }  T  ==   B[p];  if let Some(n) = E[p] { return f(n, other params) }  T
+       (B may `return`; no break / continue / nested loop; p and c are used nowhere else). Rewritten in place, so that the recursive and the
+       iterative spelling have the same typed tree (and the same self-call edge in the HIR call graph)."""
+    root = strip(fnrec["body"])
+    if not isinstance(root, dict) or root.get("k") != "Block":
+        return
+    params = [p for p in fnrec.get("params", []) if p.get("k") == "Bind"]
+    pid = {p["id"]: i for i, p in enumerate(fnrec.get("params", [])) if p.get("k") == "Bind"}
+    if len(params) != len(fnrec.get("params", [])):
+        return
+    b = root["b"]
+    stmts = b["stmts"]
+    tail_loop = "expr" in b and strip(b["expr"]).get("k") == "Loop"
+    if tail_loop:
+        stmts.append({"k": "SExpr", "e": b.pop("expr"), "tail": True})        # a `loop` in tail position: tried like a statement, put back if not lowered
+    try:
+        _lower_cursor_loop_in(fnrec, root, b, stmts, params, pid)
+    finally:
+        if stmts and stmts[-1].get("tail"):
+            b["expr"] = stmts.pop()["e"]
+
+
+def _lower_cursor_loop_in(fnrec, root, b, stmts, params, pid):
+    for j, st in enumerate(stmts):
+        holder = None
+        if st.get("k") in ("SExpr", "SSemi"):
+            holder = strip(st["e"])
+        if holder is None or holder.get("k") != "Loop" or j == 0:
+            continue
+        let = stmts[j - 1]
+        if not (let.get("k") == "SLet" and "init" in let and "els" not in let and let["pat"].get("k") == "Bind"):
+            continue
+        cid = let["pat"]["id"]
+        init = strip(let["init"])
+        opt = False
+        if init.get("k") == "Call" and str(init.get("callee", "")).endswith("::Some") and len(init["args"]) == 1:
+            opt, init = True, strip(init["args"][0])
+        if not (init.get("k") == "Path" and init.get("r") == "local" and init.get("id") in pid):
+            continue
+        p_local = init
+        body_blk = holder["body"]
+        if holder.get("src") == "Loop" and not opt:
+            lstmts, tail_ok, xid = body_blk.get("stmts", []), "expr" not in body_blk, None
+        elif holder.get("src") == "While" and opt and not body_blk.get("stmts"):
+            iff = strip(body_blk.get("expr"))
+            if not (isinstance(iff, dict) and iff.get("k") == "If" and strip(iff["cond"]).get("k") == "Let"):
+                continue
+            lt = strip(iff["cond"])
+            pt = lt["pat"]
+            if not (pt.get("k") == "PTupleStruct" and str(pt.get("path", "")).endswith("::Some") and len(pt.get("ps", [])) == 1 and pt["ps"][0].get("k") == "Bind"):
+                continue
+            sc = strip(lt["init"])
+            if not (sc.get("k") == "Path" and sc.get("id") == cid):
+                continue
+            xid = pt["ps"][0]["id"]
+            then = strip(iff["then"])
+            if then.get("k") != "Block":
+                continue
+            lstmts, tail_ok = then["b"].get("stmts", []), "expr" not in then["b"]
+        else:
+            continue
+        if not lstmts or not tail_ok:
+            continue
+        last = lstmts[-1]
+        asg = strip(last.get("e")) if last.get("k") in ("SExpr", "SSemi") else None
+        if not (isinstance(asg, dict) and asg.get("k") == "Assign" and strip(asg["l"]).get("k") == "Path" and strip(asg["l"]).get("id") == cid):
+            continue
+        work = {"k": "Block", "b": {"stmts": lstmts[:-1]}}
+        if _has_loop_control(work) or any(x.get("k") in ("Assign", "AssignOp") and strip(x["l"]).get("id") == cid for x in walk(work)):
+            continue
+        # the parameter and the cursor are used nowhere else
+        uses_p = [x for x in walk(root) if x.get("k") == "Path" and x.get("r") == "local" and x.get("id") == p_local["id"]]
+        uses_c = [x for x in walk(root) if x.get("k") == "Path" and x.get("r") == "local" and x.get("id") == cid]
+        inside = {id(x) for x in walk(holder)}
+        if len(uses_p) != 1 or any(id(x) not in inside for x in uses_c):
+            continue
+        cur = xid if opt else cid
+        for x in walk(holder):
+            if x.get("k") == "Path" and x.get("r") == "local" and x.get("id") == cur:
+                x["id"], x["name"] = p_local["id"], p_local.get("name", "self")
+        sp = holder.get("sp", "")
+        out_ty = fnrec.get("output", "")
+
+        def self_call(arg):
+            args = [arg if pp["id"] == p_local["id"] else {"k": "Path", "r": "local", "id": pp["id"], "name": pp.get("name", ""), "ty": pp.get("ty", ""), "sp": sp} for pp in params]
+            return {"k": "Call", "callee": fnrec["path"], "dk": fnrec.get("dk", "Fn"), "args": args, "ty": out_ty, "sp": sp, "lowered": "cursor-loop"}
+        new_stmts = list(lstmts[:-1])
+        if not opt:
+            new_stmts.append({"k": "SSemi", "e": {"k": "Ret", "e": self_call(asg["r"]), "ty": "!", "sp": sp}})
+        else:
+            nid = -(cid + 1000000)
+            some = {"k": "PTupleStruct", "r": "def", "dk": "Ctor(Variant, Fn)", "path": "std::prelude::v1::Some", "of": "std::prelude::v1::Some",
+                    "ps": [{"k": "Bind", "id": nid, "name": "next", "mode": "BindingMode(No, Not)", "mut": False, "byref": False, "ty": p_local.get("ty", "")}]}
+            arg = {"k": "Path", "r": "local", "id": nid, "name": "next", "ty": p_local.get("ty", ""), "sp": sp}
+            new_stmts.append({"k": "SExpr", "e": {"k": "If", "ty": "()", "sp": sp,
+                                                  "cond": {"k": "Let", "pat": some, "init": asg["r"], "ty": "bool", "sp": sp},
+                                                  "then": {"k": "Block", "unsafe": False, "ty": "!", "sp": sp,
+                                                           "b": {"stmts": [{"k": "SSemi", "e": {"k": "Ret", "e": self_call(arg), "ty": "!", "sp": sp}}]}}}})
+        stmts[j - 1:j + 1] = new_stmts
+        return
